@@ -37,14 +37,16 @@ pub struct Drv {
     /// 0 = seq_join (stream), 1 = seq_try_join_all, 2 = parallel_join
     pub mode: u8,
     pub yields: usize,
+    /// the source stream answers Pending (waking itself) once before every item (seq_join only)
+    pub src_pending: bool,
 }
 
 impl Drv {
     pub fn name(&self) -> String {
-        format!("n{}-w{}-dep{:?}-err{}-{}-y{}", self.n, self.w, self.dep, if self.err == usize::MAX { "none".to_string() } else { self.err.to_string() }, ["join", "try", "parallel"][self.mode as usize], self.yields).replace(' ', "")
+        format!("n{}-w{}-dep{:?}-err{}-{}-y{}", self.n, self.w, self.dep, if self.err == usize::MAX { "none".to_string() } else { self.err.to_string() }, ["join", "try", "parallel"][self.mode as usize], self.yields).replace(' ', "") + if self.src_pending { "-srcpend" } else { "" }
     }
     pub fn to_json(&self) -> serde_json::Value {
-        json!({"n":self.n,"w":self.w,"dep":self.dep.map(|d| vec![d.0,d.1]),"err":if self.err==usize::MAX {-1i64} else {self.err as i64},"mode":self.mode,"yields":self.yields})
+        json!({"n":self.n,"w":self.w,"dep":self.dep.map(|d| vec![d.0,d.1]),"err":if self.err==usize::MAX {-1i64} else {self.err as i64},"mode":self.mode,"yields":self.yields,"src_pending":self.src_pending})
     }
     pub fn from_json(v: &serde_json::Value) -> Self {
         let u = |k: &str| v[k].as_u64().unwrap() as usize;
@@ -55,11 +57,33 @@ impl Drv {
             err: if v["err"].as_i64().unwrap() < 0 { usize::MAX } else { v["err"].as_i64().unwrap() as usize },
             mode: v["mode"].as_u64().unwrap() as u8,
             yields: u("yields"),
+            src_pending: v["src_pending"].as_bool().unwrap_or(false),
         }
     }
 }
 
 type Task = Pin<Box<dyn Future<Output = Result<usize, String>> + Send>>;
+
+/// a source that is not ready at the first poll for each item
+struct PendingSource {
+    items: std::vec::IntoIter<Task>,
+    pended: bool,
+}
+impl futures::Stream for PendingSource {
+    type Item = Task;
+    fn poll_next(mut self: Pin<&mut Self>, cx: &mut std::task::Context<'_>) -> std::task::Poll<Option<Task>> {
+        if !self.pended {
+            self.pended = true;
+            cx.waker().wake_by_ref();
+            return std::task::Poll::Pending;
+        }
+        self.pended = false;
+        std::task::Poll::Ready(self.items.next())
+    }
+    fn size_hint(&self) -> (usize, Option<usize>) {
+        self.items.size_hint()
+    }
+}
 
 fn tasks(d: Drv, log: StdArc<StdMutex<Vec<usize>>>) -> Vec<Task> {
     let mut tx: Option<oneshot::Sender<()>> = None;
@@ -104,7 +128,7 @@ fn body(d: Drv, outcomes: StdArc<StdMutex<BTreeSet<String>>>) {
                 assert!(r == Err(format!("task {} failed", d.err)), "C15-ORACLE error: fallible join (mode {}) returned {r:?}, task {} failed", d.mode, d.err);
             }
         } else {
-            let r: Vec<Result<usize, String>> = seq_join(w, stream::iter(ts)).collect().await;
+            let r: Vec<Result<usize, String>> = if d.src_pending { seq_join(w, PendingSource { items: ts.into_iter(), pended: false }).collect().await } else { seq_join(w, stream::iter(ts)).collect().await };
             let want: Vec<Result<usize, String>> = (0..d.n).map(|i| if i == d.err { Err(format!("task {i} failed")) } else { Ok(i) }).collect();
             assert!(r == want, "C15-ORACLE order: seq_join yielded {r:?}");
         }
@@ -151,12 +175,16 @@ fn run() {
                 _ => 1,
             };
             let bounds: Vec<u32> = (0..=kmax).collect();
-            drivers.push((Drv { n, w, dep: None, err: none, mode: 0, yields: 1 }, bounds.clone()));
+            drivers.push((Drv { n, w, dep: None, err: none, mode: 0, yields: 1, src_pending: false }, bounds.clone()));
+            drivers.push((Drv { n, w, dep: None, err: none, mode: 0, yields: 1, src_pending: true }, bounds.clone()));
+            if n >= 2 {
+                drivers.push((Drv { n, w, dep: None, err: n - 1, mode: 0, yields: 0, src_pending: true }, bounds.clone()));
+            }
             // every single dependency inside a window, both directions
             for a in 0..n {
                 for b in 0..n {
                     if a != b && a.abs_diff(b) <= w - 1 {
-                        drivers.push((Drv { n, w, dep: Some((a, b)), err: none, mode: 0, yields: 0 }, bounds.clone()));
+                        drivers.push((Drv { n, w, dep: Some((a, b)), err: none, mode: 0, yields: 0, src_pending: false }, bounds.clone()));
                     }
                 }
             }
@@ -171,17 +199,17 @@ fn run() {
                 if w > 1 && e != n - 1 {
                     continue;
                 }
-                drivers.push((Drv { n, w, dep: None, err: e, mode: 1, yields: 1 }, bounds.clone()));
+                drivers.push((Drv { n, w, dep: None, err: e, mode: 1, yields: 1, src_pending: false }, bounds.clone()));
             }
-            drivers.push((Drv { n, w, dep: None, err: none, mode: 1, yields: 0 }, bounds.clone()));
+            drivers.push((Drv { n, w, dep: None, err: none, mode: 1, yields: 0, src_pending: false }, bounds.clone()));
             if w == n {
                 // parallel_join spawns everything at once: the window is the whole input
-                drivers.push((Drv { n, w, dep: None, err: none, mode: 2, yields: 1 }, bounds.clone()));
-                drivers.push((Drv { n, w, dep: None, err: n - 1, mode: 2, yields: 0 }, bounds.clone()));
+                drivers.push((Drv { n, w, dep: None, err: none, mode: 2, yields: 1, src_pending: false }, bounds.clone()));
+                drivers.push((Drv { n, w, dep: None, err: n - 1, mode: 2, yields: 0, src_pending: false }, bounds.clone()));
                 for a in 0..n {
                     for b in 0..n {
                         if a != b {
-                            drivers.push((Drv { n, w, dep: Some((a, b)), err: none, mode: 2, yields: 0 }, bounds.clone()));
+                            drivers.push((Drv { n, w, dep: Some((a, b)), err: none, mode: 2, yields: 0, src_pending: false }, bounds.clone()));
                         }
                     }
                 }
